@@ -48,6 +48,7 @@ impl Case {
             mount_boundary: false,
             entropy: 11,
             umask: None,
+            stdout_tty: false,
         }
     }
 }
